@@ -80,28 +80,11 @@ Theorem C18_stack_restored_pareto :
   pareto model tval solve fuel gs md s = (ROk r, s') -> same_stack model s s'.
 Proof. exact pareto_stack. Qed.
 Print Assumptions C18_stack_restored_pareto.
-(* lexicographic: restored only when 'no solution' is reported ... *)
-Theorem C18_stack_restored_lexicographic_partial :
-  forall model tval solve fuel gs st md (s : solver model) s',
-  lexicographic model tval solve fuel gs st md s = (ROk None, s') -> same_stack model s s'.
-Proof. exact lex_stack_restored_partial. Qed.
-Print Assumptions C18_stack_restored_lexicographic_partial.
-(* ... and refuted on success: the level pushed by _setup is never popped (for EVERY successful
-   run), with a closed witness over a sound and complete oracle *)
-Theorem C18_stack_lexicographic_leftover :
-  forall model tval solve fuel gs st md (s : solver model) x s',
-  lexicographic model tval solve fuel gs st md s = (ROk (Some x), s') ->
-  s_asserts model s' = s_asserts model s /\ s_bt model s' = length (s_asserts model s) :: s_bt model s.
-Proof. exact lex_stack_leftover. Qed.
-Print Assumptions C18_stack_lexicographic_leftover.
-Theorem C18_stack_restored_lexicographic_refuted :
-  (forall q m, Witness.sv q = Some m -> sat_all Witness.mdl Witness.bh Witness.tv m q) /\
-  (forall q, Witness.sv q = None -> forall m, ~ sat_all Witness.mdl Witness.bh Witness.tv m q) /\
-  exists fuel gs st md s x s',
-    lexicographic Witness.mdl Witness.tv Witness.sv fuel gs st md s = (ROk (Some x), s') /\
-    s_bt Witness.mdl s = [3%nat] /\ s_bt Witness.mdl s' = [1%nat; 3%nat].
-Proof. exact Witness.lex_stack_refuted. Qed.
-Print Assumptions C18_stack_restored_lexicographic_refuted.
+Theorem C18_stack_restored_lexicographic :
+  forall model tval solve fuel gs st md (s : solver model) r s',
+  lexicographic model tval solve fuel gs st md s = (ROk r, s') -> same_stack model s s'.
+Proof. exact lex_stack_restored. Qed.
+Print Assumptions C18_stack_restored_lexicographic.
 
 (* boxed: every goal gets a model of the assertions with the optimum of that goal *)
 Theorem C18_boxed_optimal :
@@ -122,23 +105,33 @@ Theorem C18_boxed_unsat :
 Proof. exact p_boxed_unsat. Qed.
 Print Assumptions C18_boxed_unsat.
 
-(* lexicographic: the result is the exact lexicographic optimum (optimal for goal 1; among the
-   models with that value optimal for goal 2; ...) and the costs are its objective values.
-   `_partial`: the stack clause is the refuted one above; each stage's optimum must be attained. *)
-Theorem C18_lexicographic_optimal_partial :
+(* lexicographic: whenever the assertions are satisfiable and the optimum of every stage is
+   attained (stage = the assertions plus equalities fixing the earlier objectives), the routine
+   terminates with the exact lexicographic optimum (optimal for goal 1; among the models with that
+   value optimal for goal 2; ...), the costs are its objective values, and the stack is restored *)
+Theorem C18_lexicographic_optimal :
   forall model base_holds tval solve, oracle_ok model base_holds tval solve ->
   forall gs st md (s : solver model), gs <> [] ->
   Forall (goal_ok model tval) gs -> Forall (fun g => g_maxsmt g = false) gs ->
-  (forall g Fc, In g gs -> (exists m, sat_all model base_holds tval m Fc) ->
-                exists mo, optimal model base_holds tval g Fc mo) ->
+  (forall g cd, In g gs -> (exists m, sat_all model base_holds tval m (s_asserts model s ++ cd)) ->
+                exists mo, optimal model base_holds tval g (s_asserts model s ++ cd) mo) ->
   (exists m, sat_all model base_holds tval m (s_asserts model s)) ->
   exists N m s',
     (forall fuel, (N <= fuel)%nat ->
        lexicographic model tval solve fuel gs st md s =
        (ROk (Some (m, map (fun g => tval (g_term g) m) gs)), s')) /\
-    lex_optimal model base_holds tval gs (s_asserts model s) m.
-Proof. exact p_lex_optimal_partial. Qed.
-Print Assumptions C18_lexicographic_optimal_partial.
+    lex_optimal model base_holds tval gs (s_asserts model s) m /\ same_stack model s s'.
+Proof. exact p_lex_optimal. Qed.
+Print Assumptions C18_lexicographic_optimal.
+Theorem C18_lexicographic_unsat :
+  forall model base_holds tval solve, oracle_ok model base_holds tval solve ->
+  forall g gs st md (s : solver model), goal_ok model tval g -> existsb g_maxsmt (g :: gs) = false ->
+  (forall m, ~ sat_all model base_holds tval m (s_asserts model s)) ->
+  exists s', (forall fuel, (1 <= fuel)%nat ->
+                lexicographic model tval solve fuel (g :: gs) st md s = (ROk None, s')) /\
+             same_stack model s s'.
+Proof. exact p_lex_unsat. Qed.
+Print Assumptions C18_lexicographic_unsat.
 
 (* MinMaxGoal / MaxMinGoal: the term built by _MaxWrap / _MinWrap (model: wrap_fuel, tied by the
    correspondence) evaluates to a greatest / least element of the component values in the order
